@@ -16,8 +16,10 @@ class Mem(Sig):
 
 
 class Body:
-    def __init__(self, text, ports, params=None):
+    def __init__(self, text, ports, params=None, strict=True):
         """ports: {name: (dir, width)}"""
+        self.strict = strict
+        self.xflag = None
         self.items = vlog.parse(text) if isinstance(text, str) else text
         self.env = {}
         self.kind = {}
@@ -158,6 +160,7 @@ class Body:
             self.lhs_write(lhs, v)
 
     def settle(self):
+        self.xflag = None
         for _ in range(4):
             changed = False
             for it in self.always:
@@ -167,7 +170,13 @@ class Body:
                     self.commit(nb)
             for it in self.assigns:
                 lw = self.lhs_width(it[1])
-                v = vlog.eval_assign(lw, it[2], self.env)
+                try:
+                    v = vlog.eval_assign(lw, it[2], self.env)
+                except XValue as e:
+                    if self.strict:
+                        raise
+                    self.xflag = str(e)     # the net is x for these inputs; keep the old value
+                    continue
                 before = self.read(it[1])
                 self.lhs_write(it[1], v)
                 if before != self.read(it[1]):
